@@ -45,7 +45,23 @@ PREDS = [("always",), ("never",), ("len_mod", 2, 0), ("len_mod", 3, 1), ("contai
 KINDS = ["String", "Element", "parsed-untyped", "parsed-string", "String+enum", "Element+const", "parsed+enum"]
 
 
+DOCSTRINGS = [None, "Plain words.", "Match ``[A-Z]{3}-[0-9]{4}``.", "{name} must hold", "100%s sure {0} {}", "}{",
+              "first line\n{second}"]
+
+
 def make_pred(spec):
+    fn = _make_pred(spec)
+    # a registered checker is whatever function the user wrote - docstring and all
+    doc = DOCSTRINGS[(len(repr(spec)) + sum(map(ord, repr(spec)))) % len(DOCSTRINGS)]
+
+    def checker(value):
+        return fn(value)
+
+    checker.__doc__ = doc
+    return checker
+
+
+def _make_pred(spec):
     if spec[0] == "always":
         return lambda s: True
     if spec[0] == "never":
